@@ -324,9 +324,29 @@ func codecTypes(c *Ctx, m *robustMaterial) []codecType {
 		}})
 	// wire messages: one of each protocol seen while the material was produced
 	seen := map[string]bool{}
-	for _, w := range m.wire {
+	wires := []*protocol.Message{}
+	// the one kind of wire message an honest run never shows: the round-0 abort notice a handler emits on Stop() or on a
+	// detected deviation (both handler types)
+	if h, err := protocol.NewMultiHandler(frost.Keygen(g, m.ids[0], m.ids, m.t), []byte("codec-abort")); err == nil {
+		go h.Stop()
+		for x := range h.Listen() {
+			if x.RoundNumber == 0 {
+				wires = append(wires, x)
+			}
+		}
+	}
+	if h, err := protocol.NewTwoPartyHandler(doerner.Keygen(g, true, m.ids[0], m.ids[1], nil), []byte("codec-abort"), true); err == nil {
+		go h.Stop()
+		for x := range h.Listen() {
+			if x.RoundNumber == 0 {
+				wires = append(wires, x)
+			}
+		}
+	}
+	wires = append(wires, m.wire...)
+	for _, w := range wires {
 		key := fmt.Sprintf("%s/%d/%v", w.Protocol, w.RoundNumber, w.Broadcast)
-		if seen[key] || len(seen) >= 6 {
+		if seen[key] || len(seen) >= 8 {
 			continue
 		}
 		seen[key] = true
@@ -523,7 +543,8 @@ func init() {
 					mutateCBOR(t.original[4:], maxArr, func(path, kind, nodeKind string, mutated []byte) {
 						cc.emitRestore(&t, "field", path, kind, nodeKind, append(append([]byte{}, pre...), mutated...))
 					})
-					for _, cnt := range []uint32{0, 1, 2, 4, 1 << 16, 1 << 24, 1<<31 - 1, 1<<32 - 1} {
+					// incl. the counts at which 32*count wraps in 32 bits
+					for _, cnt := range []uint32{0, 1, 2, 4, 1 << 16, 1 << 24, 1 << 27, 1<<27 + 1, 3 << 27, 1 << 28, 1 << 31, 1<<31 - 1, 1<<32 - 1} {
 						b := append([]byte{}, t.original...)
 						binary.BigEndian.PutUint32(b, cnt)
 						cc.emitRestore(&t, "field", "$count", fmt.Sprint("count=", cnt), "uint32", b)
